@@ -338,3 +338,39 @@ Theorem C07_cli_defaulted_metric_param_is_key_error :
   = Err 25%Z.
 Proof. exact C07SourceArgs.cmd_defaulted_param_is_key_error_world. Qed.
 Print Assumptions C07_cli_defaulted_metric_param_is_key_error.
+
+(* ---- matrices built by hand through the public class (gap review G7.1) ----
+   "a matrix missing any pair refuses to be densified" beyond the matrices the pipeline builds: ANY matrix of size n whose
+   stored keys ps are distinct, strictly lower-triangular and in range - in whatever order add_value stored them, with
+   whatever values d - refuses while a pair is missing and densifies to the symmetric zero-diagonal matrix of its values
+   once none is; mk ps is what the add_value calls build. *)
+From Batchie Require Proofs.C07HandBuilt.
+Theorem C07_hand_built_incomplete_refused :
+  forall (V : Type) (vzero : V) (d : nat -> nat -> V) (n : nat) (ps : list (nat * nat)) i j,
+  NoDup ps -> Forall (fun p => (snd p < fst p < n)%nat) ps -> (j < i < n)%nat -> ~ In (i, j) ps ->
+  add_all V d (dm_empty V (Z.of_nat n)) ps = Ok (C07DistMat.mk V d n ps) /\
+  to_dense V vzero (C07DistMat.mk V d n ps) = Err 5%Z.
+Proof.
+  intros V vzero d n ps i j Hnd Hv Hij Hnin.
+  exact (conj (C07HandBuilt.hand_built_by_add_value V d n ps Hv)
+              (C07HandBuilt.hand_built_incomplete_refused V vzero d n ps i j Hnd Hv Hij Hnin)).
+Qed.
+Print Assumptions C07_hand_built_incomplete_refused.
+
+Theorem C07_hand_built_complete_densifies :
+  forall (V : Type) (vzero : V) (d : nat -> nat -> V) (n : nat) (ps : list (nat * nat)),
+  NoDup ps -> Forall (fun p => (snd p < fst p < n)%nat) ps -> (forall i j, (j < i < n)%nat -> In (i, j) ps) ->
+  to_dense V vzero (C07DistMat.mk V d n ps) = Ok (C07DistMat.dense_of V vzero d n).
+Proof. exact C07HandBuilt.hand_built_complete_densifies. Qed.
+Print Assumptions C07_hand_built_complete_densifies.
+
+(* ... and the side condition cannot be dropped: `to_dense m = Ok D -> every pair is stored` is FALSE of the class as
+   written.  add_value guards with i < j (a diagonal key passes), is_complete counts entries: three accepted calls on a
+   size-3 matrix densify with the pairs (2,0), (2,1) missing and a non-zero diagonal.  Outside the property's quantifier
+   (no family of chunk files contains a diagonal key); replayed on the implementation by the harness (extra check). *)
+Theorem C07_to_dense_accepts_ill_formed_refuted :
+  exists m D, C07HandBuilt.ill_formed_script = Ok m /\ to_dense Z 0%Z m = Ok D
+              /\ has_key Z (dm_entries m) 2 0 = false /\ has_key Z (dm_entries m) 2 1 = false
+              /\ D = [[0; 3; 0]; [3; 5; 0]; [0; 0; 7]]%Z.
+Proof. exact C07HandBuilt.to_dense_accepts_ill_formed. Qed.
+Print Assumptions C07_to_dense_accepts_ill_formed_refuted.
